@@ -38,7 +38,9 @@ TRUSTED = [
     "recognised steps (generated worker_init_steps) and worker.py has no other module-level statement (fails closed otherwise)",
     "IEEE 754 contract behind the floating-point part of the task values: mul / add / sub / div / sqrt / float64->float32 conversion are correctly rounded element by "
     "element whatever the code path (Python float, NumPy loop, torch kernel), and the generated reductions are over integer multiples of one power of two whose exact sum "
-    "is representable, so these values are functions of the operands alone in one numeric environment; the harness compares bit patterns",
+    "is representable, so these values are functions of the operands alone in one numeric environment; the harness compares bit patterns, except that a COMPUTED NaN "
+    "(task results, batch scores) is compared as NaN whatever its payload and sign: IEEE 754 does not say which operand's payload an operation on two NaNs returns (it differs "
+    "between CPython's generic and specialised float paths within one process); NaNs of the model that are TRANSPORTED are compared bit by bit (content hashes)",
     "NumPy contract (model's encode): ndarray.__reduce_ex__(5) ships an array that is an axis permutation of a C-ordered block out of band as that block (order C / F / K with "
     "the axis order) and every other array in band; the harness reads the class of each generated array from the public result of __reduce_ex__(5), and the block bytes the "
     "model predicts are compared with the bytes observed in every shared-memory block",
@@ -574,7 +576,13 @@ ERRCODE = {"TaskFailure": 0, "BrokenProcessPool": 2}
 
 
 def _strip(r):
-    return {k: r.get(k) for k in ("id", "x2", "digest", "num")}
+    """The value of a task as it is compared (oracle and Coq codes alike): id, x2, the content hashes of the model that
+    ARRIVED (bit-exact, NaN payloads included) and the computed floating-point results with every computed NaN as "nan"
+    (c12_tasks.canon_num: which payload an operation on two NaNs returns is not a function of its operands)."""
+    import c12_tasks
+    if r is None:
+        return None
+    return {"id": r.get("id"), "x2": r.get("x2"), "digest": r.get("digest"), "num": c12_tasks.canon_num(r.get("num"))}
 
 
 def _schedule(results, n_tasks):
@@ -607,7 +615,7 @@ def term_maps(case, obs):
 
         def code(v):
             return codes.setdefault(json.dumps(v, sort_keys=True), len(codes) + 1)
-        tbl = ["(Err 0)" if e is None else f"(Ok {cnat(code(e))})" for e in exp]
+        tbl = ["(Err 0)" if e is None else f"(Ok {cnat(code(_strip(e)))})" for e in exp]
         got = [codes.get(json.dumps(_strip(r), sort_keys=True), 999) for r in m["results"]]
         err = 0 if m["error"] is None else 1
         # results carry the worker pid; for a failing map the failed task and those after it have none
@@ -726,14 +734,17 @@ def oracle_maps(case, obs):
         if changed:
             break
     seen = set()
-    for mi, (tasks, m, exp) in enumerate(zip(case["maps"], obs["maps"], obs["expected"])):
+    import c12_tasks
+    for mi, (tasks, m, exp_raw) in enumerate(zip(case["maps"], obs["maps"], obs["expected"])):
+        exp = [_strip(e) for e in exp_raw]
         # the value of a task is a function of (model, task): floating-point arithmetic gives the same bits in whichever process it runs
-        for ti, (t, r, e) in enumerate(zip(tasks, m["results"], exp)):
+        # (computed NaNs compared as NaN, every other result bit by bit)
+        for ti, (t, r, e) in enumerate(zip(tasks, m["results"], exp_raw)):
             if e is None or r.get("id") != t["id"] or r.get("num") == e.get("num"):
                 continue
             for c, g, w in zip(t.get("calc") or [], r.get("num") or [], e["num"]):
                 key = f"{case['kind']}:value-depends-on-process:{c['lib']}:{c['dtype']}:{c['class']}"
-                if g != w and key not in seen and len(seen) < 3:
+                if c12_tasks.canon_num([g]) != c12_tasks.canon_num([w]) and key not in seen and len(seen) < 3:
                     seen.add(key)
                     xs = c["xs"] if c["src"] == "task" else [case["model"]["num"][_num_key(c)]["bits"][i] for i in c["sel"]]
                     v.append((key, f"n_jobs={case['n_jobs']}, map {mi}, task {t['id']} in process {r.get('pid')}: {c['lib']} {c['dtype']} arithmetic on the "
